@@ -256,7 +256,7 @@ func parseRule(node *yaml.Node, offsetLine, offsetColumn int, contentLines []str
 		if i%2 == 0 {
 			key = part
 		} else {
-			switch key.Value {
+			switch nodeValue(key) {
 			case recordKey:
 				if recordPart != nil {
 					return duplicatedKeyError(lines, part.Line+offsetLine, recordKey)
@@ -414,7 +414,7 @@ func parseRule(node *yaml.Node, offsetLine, offsetColumn int, contentLines []str
 	if (recordPart != nil || alertPart != nil) && len(unknownKeys) > 0 {
 		var keys []string
 		for _, n := range unknownKeys {
-			keys = append(keys, n.Value)
+			keys = append(keys, nodeValue(n))
 		}
 		rule = Rule{
 			Lines: lines,
